@@ -246,6 +246,8 @@ func (l *lexer) run() {
 				l.col += w
 				l.ignore()
 				l.inVerbatim = false
+				// look at the text after the block afresh: it may start another verbatim block
+				continue
 			}
 		} else if strings.HasPrefix(l.input[l.pos:], "{% verbatim %}") { // tag
 			if l.pos > l.start {
@@ -256,6 +258,8 @@ func (l *lexer) run() {
 			l.pos += w
 			l.col += w
 			l.ignore()
+			// the block may be empty: check for its end before consuming anything
+			continue
 		}
 
 		if !l.inVerbatim {
